@@ -78,7 +78,12 @@ class PROP(Prop):
                                             exp.append("OK:RHR:%d" % val)
                                         evs.append("d" + good.hex())
                                         ops.append(cligen.call_op(reqj, R=",".join(evs)))
-                                    cs.append(Case(cligen.cli_line(proto, slave, ops), {"proto": proto, "drop": drop, "npend": npend, "late": late, "exp": exp, "slave": slave}))
+                                    # every other time the caller selects the same slave again after the abandoned call (the usual polling
+                                    # pattern `set_slave(); read()`): that changes nothing about the ids, so the late reply is still a mismatch
+                                    resel = rng.random() < 0.5
+                                    if resel:
+                                        ops.insert(1, "slave %d" % slave)
+                                    cs.append(Case(cligen.cli_line(proto, slave, ops), {"proto": proto, "drop": drop, "npend": npend, "late": late, "exp": exp, "slave": slave, "resel": resel}))
         # a long-lived TCP client: after more than a whole cycle of the 16-bit transaction id a call is abandoned while it waits for its
         # reply; the late reply must still be told apart from the next call's own reply (a header mismatch, never success)
         slave = rng.randrange(1, 248)
@@ -192,6 +197,10 @@ class PROP(Prop):
             if last.startswith("OK:"):
                 return "after %d exchanges: the late reply to the abandoned request was returned as success: %s" % (m["longlate"], last[:60])
             return None if last.startswith("HM:") else "after %d exchanges: the late reply was not reported as a header mismatch: %s" % (m["longlate"], last[:60])
+        if m.get("resel"):
+            if len(rs) != 4 or rs[1].strip() != "ok":
+                return "selecting the slave again after the abandoned call: %s" % (c.impl or "")[:80]
+            rs = [rs[0]] + rs[2:]
         if len(rs) != 3:
             return "result count: %s" % (c.impl or "")[:80]
         stream = bytearray()
